@@ -246,6 +246,19 @@ def roles_run(ctx):
                                        "replay": {"correspondence": "driver defuse line"}, "no_input": True})
                 gk = f"guarded={kv.get('g')}.privOk={kv.get('p')}.optKeeps={kv.get('k')}.cert={kv.get('c')}"
                 defuse[gk] = defuse.get(gk, 0) + 1
+                # P3R.C09O.lower_dedup_defuse (total): g=1, p=1, a=1 (operandsGuarded) => d=1; with f=1 (fuseKeeps) => c=1
+                # (P3R.C09O.compile_defuse_of_fuseKeeps); t = noTableOutputsUsed is tallied next to them
+                if kv.get("g") == "1" and kv.get("p") == "1" and kv.get("a") == "1" and kv.get("d") == "0":
+                    violations.append({"class": "model-disagreement",
+                                       "what": "hintsGuarded, privOk and operandsGuarded hold but the de-duplicated list is not certified "
+                                               "(contradicts P3R.C09O.lower_dedup_defuse)",
+                                       "replay": {"correspondence": "driver defuse line"}, "no_input": True})
+                if all(kv.get(x) == "1" for x in ("g", "p", "a", "f")) and kv.get("c") == "0":
+                    violations.append({"class": "model-disagreement",
+                                       "what": "all hypotheses of P3R.C09O.compile_defuse_of_fuseKeeps hold but the compiled circuit is not certified",
+                                       "replay": {"correspondence": "driver defuse line"}, "no_input": True})
+                ok_ = f"opt.guarded={kv.get('g')}.privOk={kv.get('p')}.operandsGuarded={kv.get('a')}.noTableOutputsUsed={kv.get('t')}.fuseKeeps={kv.get('f')}.cert={kv.get('c')}"
+                defuse[ok_] = defuse.get(ok_, 0) + 1
                 if cur_ok:
                     balanced = cur_net is not None and all(x == "0" for x in cur_net)
                     key = f"prep-ok.cert={kv.get('c')}.balanced={int(balanced)}"
@@ -289,7 +302,10 @@ def roles_run(ctx):
                 "step 'compile => defUse' (none expected from the public builder API with primitive tables); "
                 "g / p = hintsGuarded / privOk of the builder state (hypotheses of P3R.C09C.lower_defuse, which is total: g=1,p=1 => l=1 is "
                 "cross-checked), k = optKeeps (certificate of the lowered list => of the optimised list; the remaining per-program step of "
-                "P3R.C09C.compiled_bus_balanced_of_optKeeps: guarded=1.privOk=1.optKeeps=1 are the programs on which that theorem applies)"}
+                "P3R.C09C.compiled_bus_balanced_of_optKeeps: guarded=1.privOk=1.optKeeps=1 are the programs on which that theorem applies); "
+                "a / t = operandsGuarded / noTableOutputsUsed of the builder state, f = fuseKeeps (certificate of the de-duplicated list => of the fused list): "
+                "P3R.C09O.lower_dedup_defuse is total (g=1,p=1,a=1 => d=1 is cross-checked), the fusion step f is the one remaining per-program "
+                "hypothesis of P3R.C09O.compiled_bus_balanced_of_fuseKeeps (opt.* counts: the programs on which it applies)"}
     for k in ("busaudit_class_counts", "busaudit_samples", "busaudit_proved", "busaudit_prove_notes"):
         if k in npo_cov:
             cov[k] = npo_cov[k]
@@ -341,7 +357,8 @@ CHECKS = {
     },
     "C09": {
         "lean_modules": ["P3R.Props.C09", "P3R.Model.DefUse", "P3R.Props.C09Total", "P3R.Witness.C09Total",
-                         "P3R.Props.C09Compile", "P3R.Witness.C09Compile"],
+                         "P3R.Props.C09Compile", "P3R.Witness.C09Compile",
+                         "P3R.Props.C09Opt", "P3R.Witness.C09Opt"],
         "lean_exes": ["p3r_driver_c09n"],
         "theorems": ["P3R.C09.one_creator", "P3R.C09.mult_eq_reads", "P3R.C09.created_iff_defined",
                      "P3R.C09.net_zero_iff", "P3R.C09.bus_balanced",
@@ -359,7 +376,16 @@ CHECKS = {
                      "P3R.C09C.compile_defuse_of_optKeeps", "P3R.C09C.compiled_bus_balanced_of_optKeeps",
                      "P3R.Witness.C09Compile.good_guarded", "P3R.Witness.C09Compile.good_optKeeps",
                      "P3R.Witness.C09Compile.bad_not_guarded", "P3R.Witness.C09Compile.tbl_reachable",
-                     "P3R.Witness.C09Compile.tbl_dedup_breaks", "P3R.Witness.C09Compile.hnt_compiles_balanced"],
+                     "P3R.Witness.C09Compile.tbl_dedup_breaks", "P3R.Witness.C09Compile.hnt_compiles_balanced",
+                     # optimiser side (Props/C09Opt.lean): de-duplication keeps the hint-aware certificate for EVERY op list;
+                     # the lowering emits it for every guarded builder state; the fusion step is the one remaining hypothesis
+                     "P3R.C09O.hdu_defUse", "P3R.C09O.hdu_a_touched", "P3R.C09O.key_eq", "P3R.C09O.step_claimH",
+                     "P3R.C09O.dedup_preserves_hdu", "P3R.C09O.dedup_preserves_defuse", "P3R.C09O.emit_shapeA",
+                     "P3R.C09O.lower_hdu", "P3R.C09O.lower_dedup_defuse", "P3R.C09O.optKeeps_of_fuseKeeps",
+                     "P3R.C09O.compile_defuse_of_fuseKeeps", "P3R.C09O.compiled_bus_balanced_of_fuseKeeps",
+                     "P3R.Witness.C09Opt.good_operandsGuarded", "P3R.Witness.C09Opt.good_fuseKeeps", "P3R.Witness.C09Opt.good_fuses",
+                     "P3R.Witness.C09Opt.tbl_excluded", "P3R.Witness.C09Opt.hnt_hdu",
+                     "P3R.Witness.C09Opt.fuse_breaks_plain_defuse"],
         "run": roles_run,
         "trusted_base": ["non-primitive rows: the theorems cover the role scan of generate_preprocessed_columns for ANY per-plug-in request function; "
                          "the concrete request functions (posRow / recRow / sumExposed: Poseidon2 sponge + arity-2/arity-4 Merkle rows, recompose with / without "
